@@ -185,6 +185,7 @@ func (fi *fileDescriptor) flushUp(fullSync bool) error {
 		parent := fi.inode.parent
 		name := fi.inode.name
 		fi.inode.nodeLock.Unlock()
+		verifSched("fileDescriptor.flushUp:nodeSet")
 
 		// Bubble up the update to the parent, unless the file was
 		// unlinked (see inode.unlinked for details).
